@@ -59,7 +59,7 @@ pub fn corr_sets(ctx: &mut Ctx) {
         ctx.count(&format!("q={}", if p.3 == 30 { "tiny" } else if p.3 == 100_000 { "above-u16" } else { "normal" }));
         if n > 1 { ctx.mark_nontrivial(); }
         ctx.op(&newop("a", p, if u32regs { u32::MAX as u64 } else { u16::MAX as u64 }));
-        for x in &stream { ctx.op(&format!("ssk sk a {}", hx(hash_with::<FnvHasher, u64>(x)))); }
+        for x in &stream { ctx.op(&format!("ssk sk a {}", fnv_tok(x))); }
         let chunks = 1 + (c as usize % 3).min(stream.len() - 1);
         let bounds: Vec<usize> = (0..=chunks).map(|k| k * stream.len() / chunks).collect();
         let (d, card, base, other) = if u32regs {
@@ -162,7 +162,7 @@ pub fn corr_merge(ctx: &mut Ctx) {
                         let x = *rng.pick(&universe);
                         sk[i].sketch(&x).unwrap();
                         sets[i].insert(x);
-                        ctx.op(&format!("ssk sk {} {}", names[i], hx(hash_with::<FnvHasher, u64>(&x))));
+                        ctx.op(&format!("ssk sk {} {}", names[i], fnv_tok(&x)));
                     }
                     ctx.count("op=sketch-run");
                 }
@@ -214,7 +214,7 @@ pub fn corr_merge(ctx: &mut Ctx) {
             let items = gen_stream(&mut rng, n);
             let mut src = new16(p);
             ctx.op(&newop("src", p, u16::MAX as u64));
-            for x in &items { src.sketch(x).unwrap(); ctx.op(&format!("ssk sk src {}", hx(hash_with::<FnvHasher, u64>(x)))); }
+            for x in &items { src.sketch(x).unwrap(); ctx.op(&format!("ssk sk src {}", fnv_tok(x))); }
             let r = acc.merge(&src);
             ctx.line("ssk merge acc src", if r.is_ok() { "ok" } else { "ERR" });
             ctx.line("ssk dump acc", &dump16(&acc));
@@ -261,8 +261,8 @@ pub fn corr_merge(ctx: &mut Ctx) {
         let mut b = new16(pv);
         ctx.op(&newop("x", base, u16::MAX as u64));
         ctx.op(&newop("y", pv, u16::MAX as u64));
-        for x in 0..50u64 { a.sketch(&x).unwrap(); ctx.op(&format!("ssk sk x {}", hx(hash_with::<FnvHasher, u64>(&x)))); }
-        for x in 30..90u64 { b.sketch(&x).unwrap(); ctx.op(&format!("ssk sk y {}", hx(hash_with::<FnvHasher, u64>(&x)))); }
+        for x in 0..50u64 { a.sketch(&x).unwrap(); ctx.op(&format!("ssk sk x {}", fnv_tok(&x))); }
+        for x in 30..90u64 { b.sketch(&x).unwrap(); ctx.op(&format!("ssk sk y {}", fnv_tok(&x))); }
         let before = dump16(&a);
         let r = a.merge(&b);
         ctx.line("ssk merge x y", if r.is_ok() { "ok" } else { "ERR" });
